@@ -88,6 +88,13 @@ CLAIMED = {
                      "with any number of spurious re-polls, yields Ready only after the source terminated, with the source's error or all its items in order; a parked poller always has a token pending "
                      "once the source has finished and reaches Ready within three of its own steps. Tie: the real to_vec is awaited by a minimal parking executor under thousands of controlled schedules; "
                      "result, termination and poll count must lie within the outcomes of the extracted model explored exhaustively."),
+    "C11": dict(engine="coq-conc", design="DESIGN.md 6 C11",
+                technique="machine-checked proof in Coq (invariants of four transition systems at critical-section granularity - live-input set of merge/flat_map, zip queues, amb winner, take slots - for any number of input threads, any scripts, any interleaving; termination at quiescence) + correspondence under a deterministic scheduling runtime (script-based oracle on every observed schedule; implementation log set within the models' exhaustively explored log sets)",
+                text="Theorems C11_merge_conserves / C11_merge_terminates (merge, flat_map: each input's items a prefix of its script in order, none twice; at most one complete, last, after every started input delivered everything; at quiescence the complete HAS been issued), "
+                     "C11_zip_pairs / C11_zip_all_delivered (the tuple with index m pairs the m-th items; no index twice; at quiescence exactly the indices below the shortest script), C11_amb_one_input (everything delivered is a prefix of ONE input's script), "
+                     "C11_take_at_most (at most n items, one complete, nothing after it) - for every interleaving. Partial: concat and the composition operator+take are decided by the oracle on the implementation only; the order in which zip delivers tuples is not claimed "
+                     "(the crate delivers tuples out of index order under some schedules - reproduced, C11_zip_out_of_order - which C11's text does not forbid). Tie: merge / zip / amb / concat / flat_map with 2-3 inputs emitting from different threads "
+                     "(hot subjects fed by threads, cold sources behind subscribe_on), with and without take(n), under DFS / random / PCT schedules; DFS log sets must lie within the extracted models' log sets."),
     "C12": dict(engine="coq-conc", design="DESIGN.md 6 C12",
                 technique="machine-checked proof in Coq (invariants of two transition systems at critical-section granularity - Subject observer map; Replay/Behavior history with positions - for any number of producers, any scripts, any interleaving) + correspondence under a deterministic scheduling runtime (per-producer script-position oracle on every observed schedule; implementation log set within the models' exhaustively explored log sets)",
                 text="Theorems C12_subject_gap_free / C12_subject_all_items: under every interleaving of any number of producers with a subscribing and an unsubscribing thread an observer of a Subject receives from each producer a block of "
